@@ -7,6 +7,7 @@ Nothing here is shared with the Lean model; the oracles do not call pyparsing or
 """
 from __future__ import annotations
 
+import copy
 import decimal
 import os
 import re
@@ -237,6 +238,21 @@ def struct_matches(ms, ps) -> bool:
             if tuple(mf) != tuple(pf):
                 return False
         elif not struct_matches(mf, pf):
+            return False
+    return True
+
+
+def same_items(a, b) -> bool:
+    """two structures with exact counts are identical"""
+    if len(a) != len(b):
+        return False
+    for (ca, fa), (cb, fb) in zip(a, b):
+        if ca != cb or is_key(fa) != is_key(fb):
+            return False
+        if is_key(fa):
+            if tuple(fa) != tuple(fb):
+                return False
+        elif not same_items(fa, fb):
             return False
     return True
 
@@ -519,6 +535,158 @@ def features(d):
     if any(tag == "cnt" and "." in t for t, tag, _ in toks):
         f.add("fract")
     return f
+
+
+# --------------------------------------------------------------------------- derivations for the Lean specification
+
+def _last_bare(comp):
+    g = comp[-1]
+    return g if g["kind"] == "E" and g["cnt"] is None else None
+
+
+def canonicalize(d):
+    """attribute blanks the way `Compound.canon` (Model/GrammarSpec.lean) does: blanks after a
+    parenthesised group without a count belong to that group.  The text is unchanged."""
+    d = copy.deepcopy(d)
+
+    def fix(comp):
+        for i, x in enumerate(comp):
+            if isinstance(x, tuple):
+                continue
+            if x["kind"] == "E":
+                fix(x["inner"])
+                lb = _last_bare(x["inner"])
+                if lb is not None and x["b2"]:
+                    lb["b3"] += x["b2"]
+                    x["b2"] = ""
+                if x["cnt"] is None and i + 1 < len(comp):
+                    b1, plus, b2 = comp[i + 1]
+                    if b1:
+                        x["b3"] += b1
+                        comp[i + 1] = ("", plus, b2)
+    fix(d["comp"])
+    lb = _last_bare(d["comp"])
+    if lb is not None:
+        if d["dens"]:
+            b, c, b2, tag = d["dens"]
+            if b:
+                lb["b3"] += b
+                d["dens"] = ("", c, b2, tag)
+        elif d["trail"]:
+            lb["b3"] += d["trail"]
+            d["trail"] = ""
+    return d
+
+
+def _enc_cnt(t):
+    if t is None:
+        return "c0"
+    if "." in t:
+        i, f = t.split(".")
+        return "cf %s %s" % (enc(i), enc(f))
+    return "cw %s" % enc(t)
+
+
+def _enc_elem(el):
+    out = ["e", enc(el["pre"]), enc(el["sym"])]
+    if el["iso"]:
+        b1, a, b2 = el["iso"]
+        out += ["i1", enc(b1), enc(str(a)), enc(b2)]
+    else:
+        out.append("i0")
+    if el["ion"]:
+        b1, mag, sg, b2, _q = el["ion"]
+        out += ["q1", enc(b1), enc(mag), "1" if sg == "-" else "0", enc(b2)]
+    else:
+        out.append("q0")
+    out.append(_enc_cnt(el["cnt"]))
+    return " ".join(out)
+
+
+def _enc_group(g):
+    if g["kind"] == "I":
+        return "I %s %d %s" % (_enc_cnt(g["lead"]), len(g["elems"]), " ".join(_enc_elem(e) for e in g["elems"]))
+    return "X - %s %s %s %s %s" % (enc(g["b1"]), _enc_comp(g["inner"]), enc(g["b2"]), enc(g["b3"]), _enc_cnt(g["cnt"]))
+
+
+def _enc_comp(comp):
+    out = ["["]
+    for x in comp:
+        if isinstance(x, tuple):
+            out.append("s %s %d %s" % (enc(x[0]), 1 if x[1] else 0, enc(x[2])))
+        else:
+            out.append(_enc_group(x))
+    out.append("]")
+    return " ".join(out)
+
+
+def encode_deriv(d):
+    """protocol text of a derivation (canonicalised) for `ptdriver grammar deriv`"""
+    d = canonicalize(d)
+    if d["dens"]:
+        b, c, b2, tag = d["dens"]
+        dens = "d1 %s %s %s %s" % (enc(b), _enc_cnt(c), enc(b2), tag or "-")
+    else:
+        dens = "d0"
+    return "deriv F %s %s %s %s" % (enc(d["lead"]), _enc_comp(d["comp"]), dens, enc(d["trail"]))
+
+
+def all_elems(comp, out=None):
+    out = [] if out is None else out
+    for x in comp:
+        if isinstance(x, tuple):
+            continue
+        if x["kind"] == "I":
+            out += x["elems"]
+        else:
+            all_elems(x["inner"], out)
+    return out
+
+
+UNDEFINED_KINDS = ["unknown-symbol", "undefined-isotope", "undefined-charge"]
+
+
+def undefine(rng, d, ref, kind):
+    """a copy of derivation `d` in which one element names a symbol / isotope / charge the table
+    does not define (still a derivation of the grammar)"""
+    d = copy.deepcopy(d)
+    el = rng.choice(all_elems(d["comp"]))
+    e = ref[el["sym"]]
+    if kind == "unknown-symbol":
+        el["sym"] = rng.choice([u for u in UNKNOWN_SYMBOLS if u not in ref])
+    elif kind == "undefined-isotope":
+        if e["alias"]:
+            bad = rng.choice(e["isos"] + [2, 3])          # D[2]: an Isotope is not subscriptable
+        else:
+            pool = [a for a in (min(e["isos"] or [1]) - 1, max(e["isos"] or [1]) + 1, 999, 1, 500)
+                    if a > 0 and a not in e["isos"]]
+            bad = rng.choice(pool)
+        b1, _a, b2 = el["iso"] if el["iso"] else ("", 0, "")
+        el["iso"] = (b1, bad, b2)
+    else:
+        pool = [q for q in (1, -1, 2, -2, 3, 9, -9, 12, max(e["ions"] or [0]) + 1, min(e["ions"] or [0]) - 1)
+                if q != 0 and q not in e["ions"]]
+        q = rng.choice(pool)
+        mag = "%d" % abs(q) if abs(q) > 1 or rng.random() < 0.5 else ""
+        b1, _m, _s, b2, _q = el["ion"] if el["ion"] else ("", "", "", "", 0)
+        el["ion"] = (b1, mag, "+" if q > 0 else "-", b2, q)
+    return d
+
+
+def parse_deriv_reply(text):
+    """'D <canon> <text> OK items dens' | 'D <canon> <text> NONE' -> (canon, text, result)"""
+    toks = text.split()
+    assert toks[0] == "D", text
+    canon = toks[1] == "1"
+    s = dec(toks[2])
+    if toks[3] == "NONE":
+        return canon, s, None
+    items, pos = parse_items(toks, 4)
+    if toks[pos] == "-":
+        dens = None
+    else:
+        dens = (toks[pos], Fraction(int(toks[pos + 1]), 10 ** int(toks[pos + 2])))
+    return canon, s, (items, dens)
 
 
 # --------------------------------------------------------------------------- malformations
